@@ -9,7 +9,7 @@ HOOKS = {
 ENGINES = [
     {"name": "fault", "path": "/verif/mc/props/C08.py", "serves_properties": ["C08"],
      "kind_free_text": "fault-point enumerator: public-API fault menu x position and sys.settrace call-level injection, snapshot oracle"},
-    {"name": "hist", "path": "/verif/mc/props", "serves_properties": ["C09", "C11"],
+    {"name": "hist", "path": "/verif/mc/props", "serves_properties": ["C09", "C10", "C11"],
      "kind_free_text": "explicit-state BFS over the real API: states rebuilt by history replay on fresh "
                        "objects, canonical form by names, invariant + reference model after every transition"},
 ]
@@ -43,5 +43,15 @@ CHECKS["C08"] = dict(
          "defaults must be byte-identical afterwards and a repeated call must agree.",
     note="Faults are not injected into the statements of the restoring `finally` block; generator frames are not fault points; "
          "style compared via style.as_dict(). Trusted: snapshot code in mc/props/C08.py.")
+CHECKS["C10"] = dict(
+    engine="hist", level="model_checking", design_ref="DESIGN.md §4 C10, Appendix A.2",
+    technique="explicit-state BFS of move/rotate/setter histories on real collection trees with an index-mapped relative-pose oracle",
+    text="Every op of a ~100-op alphabet (move/rotate/rotate_from_angax with all input, anchor and start forms; position/orientation "
+         "setters; reset_path) is applied to every object of three tree shapes (flat, nested depth 2 and 3, distinct off-origin "
+         "collection poses) with path lengths 1..3, BFS depth 2; after every transition each descendant's pose relative to the "
+         "operated collection must equal the pre-state's at the mapped index, everything outside the subtree must be byte-identical, "
+         "and the field seen by the collection's own sensor must obey the same index relation.",
+    note="Ops on a collection are enabled only if its whole subtree shares its path length (the property's precondition). Bounded by "
+         "tree shapes, depth 2 (3 reduced in thorough), fixed generic numeric values; trusted: pathmodel index map.")
 _todo = "check not built yet in this session (planned, see DESIGN.md §4); nothing is claimed for it"
 NOT_APPLICABLE = [{"property_id": f"C{i:02d}", "reason": _todo} for i in range(1, 21) if f"C{i:02d}" not in CHECKS]
